@@ -601,7 +601,7 @@ Ltac insert_hook ps :=
   positions_list; rewrite ?d_choice_map;
   unfold len; rewrite ?list_mul_none_len, ?enumerate_from_0; unfold enumerate;
   insert_loops ps;
-  rewrite ?setslice_nat, ?list_insert_0, ?Nat.sub_0_r; cbn [unwrap_all Nat.add];
+  rewrite ?setslice_nat, ?list_insert_0, ?Nat.sub_0_r; cbn [unwrap_all Nat.add app];
   rewrite ?unwrap_all_app_some.
 
 Lemma gen_mutInsert_eq l ps ds : gen_mutInsert l ps ds = m_mutInsert l ps ds.
